@@ -71,7 +71,9 @@ func (p *payload) unmarshalJSON() (result any, err error) {
 	if p.parsed != nil {
 		return p.parsed, nil
 	} else if p.marshaled != nil {
-		err = decodeRaw(p.marshaled, &result)
+		// (numbers keep their literal: the parsed form is only edited and marshaled again, and decoding them into
+		// float64 would round integers beyond 2^53 and long decimals of the caller's value)
+		err = unmarshalKeepingNumbers(p.marshaled, &result)
 		if err == nil {
 			p.parsed = result
 		}
